@@ -32,7 +32,7 @@ fn subjects() -> Vec<String> {
         v.extend(next.iter().cloned());
         layer = next;
     }
-    for s in ["A", "ab c", "x", "1", "12", "a1", "\u{e9}", "\u{1f600}", "\u{1f600}b", "e\u{301}", "a.b", "a|b", "(a)", "a\\b", "\\d", "[a]", "^a", "a$", "a*", "a b", "aaaa", "abcabc", "\u{416}"] {
+    for s in ["A", "ab c", "x", "1", "12", "a1", "\u{e9}", "\u{1f600}", "\u{1f600}b", "e\u{301}", "a.b", "a|b", "(a)", "a\\b", "\\d", "[a]", "^a", "a$", "a*", "a b", "aaaa", "abcabc", "\u{416}", "]", "]x", "x]", "a]", ".", "-", "^", "[", "\\", "a]b", "v-1", "v.1", "v]1", "vx1", "+", "9", "Abcdefghijklmnopqrstuvwxyzabcdefghijklmnopqrstuvwxyz", "\u{416}\u{438}\u{432}\u{430}\u{433}\u{43e}", "ab12_"] {
         v.push(s.to_string());
     }
     v
@@ -42,6 +42,11 @@ pub fn patterns() -> Vec<&'static str> {
     vec![
         "a", "abc", "", ".", "..", "a.c", "a*", "a+", "a?", "ab*", "(ab)*", "(ab)+c?", "a|b", "a|bc", "ab|c", "a|ab", "a|ab|abc", "a(|b)", "(a|ab)*", "(a|ab)(c|bcd)?", "b|bc|bca", "(|a)b", "(a|b)c", "a(b|c)", "(a|b)*", "a||b", "[ab]", "[^a]", "[a-c]+", "[^a-b]*", "a{2}", "a{1,2}", "a{2,}", "(a|b){2}",
         "^a", "a$", "^a$", "^a|b$", "^(a|b)$", "\\d", "\\d+", "\\w+", "\\s", "\\p{Lu}", "\\p{L}+", "\\.", "a\\.b", "\\\\", "\\[a\\]", "\\(a\\)", "a\\|b", "\\^a", "a\\$", "\\\\d",
+        // character classes: escaped brackets, dots, hyphens and carets inside, negation, ranges
+        "[\\].]", "[^\\].]", "[\\]\\-.]", "v[\\]\\-.][0-9]", "[.]", "[.x]", "[a.\\]]", "[\\[]", "[\\]]", "[\\\\]", "[\\^a]", "[a\\-c]", "[-a]", "[a-]", "[^-a]", "[\\.]", "[|]", "[(]", "[)*+?]", "[{}]", "[a-c.]x", "x[\\].]", "[\\]][.]", "[^\\]]", "[^\\]]+\\.",
+        "[\\d.]", "[\\w\\].]", "[\\p{L}.]", "[^\\p{L}]", "\\]", "a\\]", "[a]\\]\\.", ".[\\]].", "(\\]|.)", "[\\].]+", "[^\\].]*x", "[a\\].b]{2}", "[\\]a]|[.b]", "[^.]", "[^.\\]]", "[.-9]", "[+-.]",
+        // large Unicode classes under counted repetition
+        "\\p{L}{1,40}", "[\\p{L}\\p{Nd}_]{3,40}", "\\p{Lu}\\p{Ll}{2,64}", "\\p{L}{20}", "(\\p{L}|\\p{N})*", "[a-z]{1,1000}", ".{1,255}", "\\w{1,100}", "(\\p{L}{1,8}){1,8}",
         // invalid patterns: both functions must answer false
         "[a", "(", "*a", "a{2,1}", "(?P<", "\\", "a)",
         // quotes inside
